@@ -187,7 +187,11 @@ def addWatch (fs : FS) (k : Kern) (lib : Lib) (p : P) : Option (Kern × Lib × N
   | none => none                                     -- ENOENT
   | some e =>
     match k.wdOfIno e.ino with
-    | some wd => some (k, { lib with wdForPath := setP lib.wdForPath p wd, pathForWd := setW lib.pathForWd wd p }, wd)
+    | some wd =>
+      -- (repaired, D24) an inode that is handed its descriptor again under ANOTHER path has come back before its departure
+      -- was dealt with: the stale key goes (and with it what the delayed clean-up would have found)
+      some (k, { lib with wdForPath := setP (lib.wdForPath.filter (fun x => x.2 != wd || x.1 == p)) p wd,
+                          pathForWd := setW lib.pathForWd wd p }, wd)
     | none =>
       let wd := k.nextWd
       some ({ k with watches := k.watches ++ [(wd, e.ino)], nextWd := wd + 1 },
